@@ -40,8 +40,8 @@ def gen_case(rng):
         ads2 = [G.gen_adapter(rng, i, upper=True, prefix="bd", kinds=kinds) for i in range(rng.randint(1, 2))]
     action = rng.choice(ACTIONS)
     times = rng.choice([1, 1, 2, 3])
-    if action in ("retain", "crop"):
-        times = 1
+    if action in ("retain", "crop") and rng.random() < 0.85:
+        times = 1     # more rounds are documented as unsupported: mostly not asked for; when asked for, see evaluate()
     linked = any(a["kind"] == "linked" for a in ads1 + ads2)
     if linked and action == "crop":
         action = "trim"
@@ -167,9 +167,23 @@ def check_adapter_stage(ctx, c, case, side, I, O, matches, is_rc, trim_O, key):
         if (O[1], O[2]) != (I[1], I[2]):
             viol("none-changed", f"action none changed the read: {I[1]!r} -> {O[1]!r}")
     elif action in ("retain", "crop"):
+        lo = 0
+        if len(matches) > 1:
+            # only reachable if the tool accepts retain/crop with several rounds (it is documented to refuse): the
+            # interval around the *last* match, whose coordinates refer to what the earlier rounds left of the read
+            if action != "crop" or any(m["kind"] == "linked" for m in matches):
+                ctx.count("multi_round_retain_crop_not_judged")
+                return
+            hi = n
+            for m in matches[:-1]:
+                if m["kind"] == "before":
+                    lo += m["rstop"]
+                else:
+                    hi = lo + m["rstart"]
         iv = expected_interval(matches, action, n)
         if iv is None:
             return
+        iv = (iv[0] + lo, iv[1] + lo)
         s, e = iv
         if (O[1], O[2]) != (I[1][s:e], None if I[2] is None else I[2][s:e]):
             viol(f"{action}-interval", f"{action}: expected [{s}:{e}] of {I[1]!r} = {I[1][s:e]!r}, got {O[1]!r}; matches={[{k: v for k, v in m.items() if k in ('kind','rstart','rstop','name')} for m in matches]}")
@@ -349,6 +363,10 @@ def one_case(ctx, k):
         ctx.count("action:" + c["action"])
         if c["paired"]:
             ctx.count("paired_runs")
+        if run.rc == 2 and c["action"] in ("retain", "crop") and c["times"] > 1:
+            ctx.count("retain_crop_with_several_rounds_refused")
+            ctx.case(None)
+            return
         if run.rc != 0:
             ctx.count("runs_failed")
             ctx.extra.setdefault("failed_example", (argv, run.err[-300:]))
